@@ -23,10 +23,11 @@ def load():
 
 def match(kf, pid, v):
     sig = v.get("sig") or ""
+    dsig = v.get("dsig") or ""
     for f in kf:
         if f.get("status") != "known" or f.get("property") != pid:
             continue
         for pat in f.get("signatures", []):
-            if fnmatch.fnmatchcase(sig, pat):
+            if fnmatch.fnmatchcase(sig, pat) or (dsig and fnmatch.fnmatchcase(dsig, pat)):
                 return f
     return None
